@@ -18,6 +18,8 @@ import (
 	mrand "math/rand"
 	"net/http/httptest"
 	"net/url"
+	"sort"
+	"strings"
 	"time"
 
 	"github.com/beevik/etree"
@@ -283,6 +285,57 @@ func c08SPSide(c *Ctx) {
 		cv := cbcEncrypt(spAlgs[0], key, []byte(ax), r)
 		kind, detail := f.parse(f.responseXML(encryptedAssertionXML(spAlgs[0], key, other, cv, "", false)))
 		add("encrypted-to-another-key", map[string]string{"variant": v.name}, map[string]any{"variant": v.name}, kind == "rejected", kind, detail)
+	}
+
+	// (2b) bytes that etree parses but the XML round-trip validator refuses (an empty CDATA section is
+	// invisible to exclusive c14n, so the IdP's signature stays valid): the same bytes must get the same
+	// verdict — refused — whether presented as a plaintext assertion or encrypted to the SP by a third party
+	if ax, err := f.signedAssertion(nil, 1); err == nil {
+		inject := func(after string, what string) string {
+			i := strings.Index(ax, after)
+			if i < 0 {
+				return ""
+			}
+			return ax[:i+len(after)] + what + ax[i+len(after):]
+		}
+		unsafe := map[string]string{
+			"empty-cdata-after-issuer":   inject("</saml:Issuer>", "<![CDATA[]]>"),
+			"empty-cdata-in-nameid":      inject("</saml:NameID>", ""),
+			"empty-cdata-before-subject": inject("<saml:Subject>", "<![CDATA[]]>"),
+			"empty-cdata-at-end":         strings.Replace(ax, "</saml:Assertion>", "<![CDATA[]]></saml:Assertion>", 1),
+			"two-empty-cdata":            inject("</saml:Issuer>", "<![CDATA[]]><![CDATA[]]>"),
+		}
+		if i := strings.Index(ax, "</saml:NameID>"); i > 0 {
+			unsafe["empty-cdata-in-nameid"] = ax[:i] + "<![CDATA[]]>" + ax[i:]
+		}
+		names := make([]string, 0, len(unsafe))
+		for n := range unsafe {
+			names = append(names, n)
+		}
+		sort.Strings(names)
+		for _, n := range names {
+			x := unsafe[n]
+			if x == "" {
+				continue
+			}
+			pk, pd := f.parse(f.responseXML(x))
+			for _, alg := range spAlgs[:4] {
+				key := make([]byte, alg.keySize)
+				r.Read(key)
+				cv := cbcEncrypt(alg, key, []byte(x), r)
+				for _, sibling := range []bool{false, true} {
+					ek, ed := f.parse(f.responseXML(encryptedAssertionXML(alg, key, spPub, cv, fix.CertB64("rsa_b"), sibling)))
+					add("roundtrip-unsafe-plaintext", map[string]string{"variant": n, "alg": alg.uri, "sibling_key": fmt.Sprint(sibling)},
+						map[string]any{"variant": n, "cipher": alg.uri, "assertion_xml": x}, pk == "rejected" && ek == "rejected",
+						fmt.Sprintf("plain=%s encrypted=%s", pk, ek), fmt.Sprintf("plain: %s | encrypted: %s", pd, ed))
+				}
+			}
+		}
+		// control: the untouched bytes, encrypted the same way, are accepted
+		key := make([]byte, 16)
+		r.Read(key)
+		ek, ed := f.parse(f.responseXML(encryptedAssertionXML(spAlgs[0], key, spPub, cbcEncrypt(spAlgs[0], key, []byte(ax), r), "", false)))
+		add("roundtrip-unsafe-plaintext", map[string]string{"variant": "control-untouched"}, map[string]any{"variant": "control"}, ek == "accepted", "encrypted="+ek, ed)
 	}
 
 	// (3) plaintexts that are not an assertion document
